@@ -5,7 +5,6 @@ capturing WSGI app records the environ it was handed and answers as the case pre
 bytes the server wrote are split into status line / header lines / body.  Both observables are
 compared with the Gallina model (C47.Run.run_case) and checked by C47.Run.check_case."""
 import logging
-import os
 import socket
 import sys
 import types
@@ -305,19 +304,20 @@ def corpus_cases():
         mk(method="HEAD", chunks=[]),
         mk(v11=False, headers=[("Host", " h"), ("Connection", " keep-alive")]),
         mk(headers=[("Host", " h"), ("Connection", " close")]),
-    ]
+    ] + FIXED_WITNESSES
 
 
-# open candidates reported in NOTES.md (kept out of corpus_cases so that the corpus stays green
-# if they are triaged as known findings; the generator reaches both classes anyway)
-CANDIDATES = [
+# witnesses of the two defects found while building this property (fixed by a2172c8, 9dbe448)
+FIXED_WITNESSES = [
     mk(method="HEAD", chunks=["hi"]),
+    mk(method="HEAD", v11=False, start=("404 Not Found", [("Content-Type", "a/b")]), written=["w"], chunks=["x", "yz"]),
     mk(uri="/caf\xc3\xa9"),
+    mk(uri="/\xe9%e9\xff?\xe9"),
 ]
 
 
 def gen_cases(rng, tier):
-    out = list(CANDIDATES)
+    out = []
     # every host name x port suffix, both schemes
     for n in NAMES:
         for p in PORTS:
@@ -367,18 +367,7 @@ def gen_cases(rng, tier):
         c = rand_request(rng, good_r)
         c.update(rand_app(rng, good_a))
         out.append(mk(**c))
-    if os.environ.get("C47_SKIP_CANDIDATES"):      # mutation testing only: leave out the two open candidate classes
-        out = [c for c in out if not _candidate_class(c)]
     return out
-
-
-def _candidate_class(case):
-    path = case["uri"].partition("?")[0]
-    if any(ord(ch) > 127 for ch in path):
-        return "raw-non-ascii-path-reencoded"
-    if case["method"] == "HEAD" and _body_len(case["written"], case["chunks"]) > 0:
-        return "head-response-with-body-dropped"
-    return None
 
 
 def _accepted(o):
@@ -416,13 +405,8 @@ def classify(case, o):
 
 
 def signature(case, o):
-    path = case["uri"].partition("?")[0]
     if _accepted(o):
-        if any(ord(c) > 127 for c in path):
-            return "raw-non-ascii-path-reencoded"
-        if case["method"] == "HEAD" and o[2] == "Raised" and _body_len(case["written"], case["chunks"]) > 0:
-            return "head-response-with-body-dropped"
-        return "served-other"
+        return "served:" + ("HEAD" if case["method"] == "HEAD" else "other") + ":" + (o[2] if isinstance(o[2], str) else "written")
     return "not-served:" + str(o if isinstance(o, str) else o[0])
 
 
@@ -475,9 +459,9 @@ RULE = ("Host names x port suffixes exhaustively, all strings over a small Host 
         "paths with every kind of escape x query strings, statuses x bodies x default-header presence, header-name pairs (CGI collisions), "
         "plus random structured requests/applications (80% well-formed) ; distinct by full input; non-trivial = the application was called")
 LEVEL_TEXT = ("Machine-checked (Coq) theorems over an executable model of WSGIContainer.environ / handle_request and the parts of HTTPHeaders, "
-              "HTTPServerRequest and HTTP1Connection.write_headers they rely on: building the environ never raises for any accepted request; "
+              "HTTPServerRequest and HTTP1Connection.write_headers they rely on: building the environ never raises for any accepted request; PATH_INFO is the percent-decoding of the raw path bytes; "
               "SERVER_NAME/SERVER_PORT equal the left-to-right reading of name[:port] Host values; every CGI variable is determined by the request; "
-              "application status, headers (per-name value sequences) and body reach the transport unchanged apart from the three defaults. "
+              "for every well-formed application output the response is written and status, headers (per-name value sequences) and body (none for HEAD) reach the transport unchanged apart from the three defaults; the model satisfies the checker on every input. "
               "The model is compared with the real server + container on every generated request/application pair.")
 LEVEL_NOTE = ("Trusted: Coq kernel/vm_compute; the request reader upstream of HTTPServerRequest; the harness's response splitter; the Pct/Utf8 library models.")
 TECHNIQUE = "Coq proofs (induction over header lists / header map invariants) + differential correspondence via vm_compute through a real HTTPServer on a fake stream"
